@@ -458,6 +458,39 @@ func (s *signer) geValue(a, b ssa.Value, k int64, pt point, q *signQuery, depth 
 			}
 		}
 	}
+	// max(…, b', …) >= b when some argument is; min(…) >= b when every argument is
+	if c, ok := a.(*ssa.Call); ok {
+		if bi, ok := c.Call.Value.(*ssa.Builtin); ok && depth < 6 {
+			switch bi.Name() {
+			case "max":
+				for _, arg := range c.Call.Args {
+					if s.geValue(arg, b, k, pt, q, depth+1) {
+						return true
+					}
+				}
+			case "min":
+				all := len(c.Call.Args) > 0
+				for _, arg := range c.Call.Args {
+					if !s.geValue(arg, b, k, pt, q, depth+1) {
+						all = false
+					}
+				}
+				if all {
+					return true
+				}
+			}
+		}
+	}
+	// a >= max(…) is not needed so far; a >= b where b = min(…, a', …) with a >= a'
+	if c, ok := b.(*ssa.Call); ok {
+		if bi, ok := c.Call.Value.(*ssa.Builtin); ok && bi.Name() == "min" && depth < 6 {
+			for _, arg := range c.Call.Args {
+				if s.geValue(a, arg, k, pt, q, depth+1) {
+					return true
+				}
+			}
+		}
+	}
 	switch x := a.(type) {
 	case *ssa.Phi:
 		key := phiPair{x, b}
@@ -915,4 +948,127 @@ func checkLenMinus(w *World, r *Report) {
 		})
 	}
 	r.Counts["len(x)-k bounds"] = n
+}
+
+// ---------------------------------------------------------------- R05.10
+//
+// An offset found in one string is only used to cut that string.  strings.Index & co. return
+// byte offsets into their haystack; if the haystack is a transformed copy (ToLower, ToUpper,
+// Replace, TrimSpace, …) of the string that is then sliced, the offset can lie beyond its end
+// (case mapping changes byte lengths: "Ⱥ" is 2 bytes, "ⱥ" 3) and the slice expression panics.
+
+var indexFuncs = map[string]bool{
+	"strings.Index": true, "strings.IndexByte": true, "strings.IndexRune": true, "strings.IndexAny": true,
+	"strings.LastIndex": true, "strings.LastIndexByte": true, "strings.LastIndexAny": true, "strings.IndexFunc": true,
+	"bytes.Index": true, "bytes.IndexByte": true, "bytes.LastIndex": true, "bytes.IndexAny": true,
+}
+
+// sliceRoot: the string a value is a sub-slice of (peels s[a:b] and spilled locals).
+func sliceRoot(v ssa.Value) ssa.Value {
+	for i := 0; i < 8; i++ {
+		switch x := v.(type) {
+		case *ssa.Slice:
+			v = x.X
+			continue
+		case *ssa.UnOp:
+			if u := unspill(x); u != ssa.Value(x) {
+				v = u
+				continue
+			}
+		}
+		break
+	}
+	return v
+}
+
+// indexOrigins: the strings.Index-family calls a bound value is computed from.
+func indexOrigins(v ssa.Value, seen map[ssa.Value]bool, depth int, out *[]*ssa.Call) {
+	if seen[v] || depth > 8 {
+		return
+	}
+	seen[v] = true
+	switch x := v.(type) {
+	case *ssa.Call:
+		if f := calleeFunc(x); f != nil && indexFuncs[f.FullName()] {
+			*out = append(*out, x)
+		}
+	case *ssa.BinOp:
+		indexOrigins(x.X, seen, depth+1, out)
+		indexOrigins(x.Y, seen, depth+1, out)
+	case *ssa.Phi:
+		for _, e := range x.Edges {
+			indexOrigins(e, seen, depth+1, out)
+		}
+	case *ssa.Convert:
+		indexOrigins(x.X, seen, depth+1, out)
+	case *ssa.UnOp:
+		if al, ok := x.X.(*ssa.Alloc); ok && al.Referrers() != nil {
+			for _, ref := range *al.Referrers() {
+				if st, ok := ref.(*ssa.Store); ok && st.Addr == al {
+					indexOrigins(st.Val, seen, depth+1, out)
+				}
+			}
+		}
+	}
+}
+
+func checkOffsetProvenance(w *World, r *Report, reach map[*ssa.Function]bool) {
+	n := 0
+	for _, fn := range w.pkgFuncs() {
+		if !reach[fn] {
+			continue
+		}
+		instrsOf(fn, func(in ssa.Instruction) {
+			sl, ok := in.(*ssa.Slice)
+			if !ok {
+				return
+			}
+			if b, ok := sl.X.Type().Underlying().(*types.Basic); !ok || b.Info()&types.IsString == 0 {
+				return
+			}
+			var calls []*ssa.Call
+			for _, bound := range []ssa.Value{sl.Low, sl.High} {
+				if bound != nil {
+					indexOrigins(bound, map[ssa.Value]bool{}, 0, &calls)
+				}
+			}
+			if len(calls) == 0 {
+				return
+			}
+			target := sliceRoot(sl.X)
+			for _, c := range calls {
+				n++
+				hay := sliceRoot(c.Call.Args[0])
+				construct := "offset used to cut a string was found in that string"
+				if sameValue(hay, target) {
+					r.ok("R05.10", ssaName(fn), construct, w.posOf(in.Pos()), "haystack of "+calleeFunc(c).Name()+" and the sliced string are the same value", false)
+					continue
+				}
+				// a transformed copy?
+				desc := "another string"
+				if hc, ok := hay.(*ssa.Call); ok {
+					if f := calleeFunc(hc); f != nil {
+						desc = "the result of " + f.FullName()
+						// transformations of the sliced string itself are the dangerous case;
+						// offsets into an unrelated string are not this rule's business
+						related := false
+						for _, a := range hc.Call.Args {
+							if sameValue(sliceRoot(a), target) {
+								related = true
+							}
+						}
+						if !related {
+							n--
+							continue
+						}
+					}
+				} else {
+					n--
+					continue
+				}
+				r.bad("R05.10", ssaName(fn), construct, w.posOf(in.Pos()), fmt.Sprintf("the offset comes from %s(%s), but it cuts the original string: the transformation can change byte lengths (lower-casing \"Ⱥ\" grows it from 2 to 3 bytes), so the offset can exceed the original's length and the slice expression panics", calleeFunc(c).Name(), desc))
+			}
+		})
+	}
+	r.Counts["string cuts at offsets found by an index search"] = n
 }
